@@ -131,6 +131,28 @@ for doc in ({d1}, {d2}, {d1}):
 return ok
 """
         out.append(mk_case(f"c17.history.{n}", [("u1", U), ("u2", "int")], body, pre=[f"BU({L}, u1, u2)"], stubs=["sym_repr"]))
+    # aliased documents (one container object under several keys / list positions, as YAML anchors load): a non-concrete argument path
+    # reaches every occurrence, `last()` is the last occurrence, and each occurrence counts in a list argument
+    body = """
+sh = {'id': u2, 'x': u1}
+other = {'id': r1, 'x': 0}
+doc = {'p': sh, 'q': sh, 'rows': [sh, other, sh], 'n': [u2, u2], 'k': u2, 'm': [u2, r1, u2]}
+walk = lambda pt, mod=None, multi=None: ref_get(pt, doc, mod, multi)
+ROWS_ID = (('prim', 'rows'), ('list', NULL), ('prim', 'id'))
+ok = True
+for rpath, cond, lit in (
+    (('n',), Value.equal_to(DataPath(MapValue(key=Key.in_(['p', 'q'])), 'id')), Value.equal_to([u2, u2])),
+    (('k',), Value.equal_to(DataPath('rows', ListValue(), 'id').last()), Value.equal_to(u2)),
+    (('m',), Value.equal_to(DataPath('rows', ListValue(), 'id')), Value.equal_to(walk(ROWS_ID))),
+    (('k',), Value.in_([DataPath('rows', ListValue(), 'id').last(), DataPath('zz')]), Value.in_([u2, None])),
+    (('n',), Value.equal_to(DataPath(MapValue(value=Value.is_instance(dict))).length()), Value.equal_to([2, 2])),
+    (('m',), Value.equal_to(DataPath('rows', ListValue(value=Value.keys_contain('x'))).length()), Value.equal_to([2, 2, 2])),
+):
+    ok = ok and same('verdict equals the rule with the argument replaced by the referenced value',
+                     summarize_test(Rule(rpath, cond).test(doc)), summarize_test(Rule(rpath, lit).test(doc)))
+return ok
+"""
+    out.append(mk_case("c17.alias.api", [("r1", "int"), ("u1", U), ("u2", "int")], body, pre=[f"BU({L}, r1, u1, u2)"], stubs=["sym_repr"]))
     tables = [("api", list(CASES)), ("spec", list(SPEC_CASES))]
     if not ctx.quick:
         for kind, table in tables:
